@@ -593,9 +593,63 @@ def lane_props(ctx):
     return [lm.run(), lu.run(), lf.run()]
 
 
-def random_frame(ctx, kinds='MHBPX'):
+PRODUCTS = ['RabbitMQ', 'rabbitmq', 'RabbitMQ ', 'Qpid', 'qpid-cpp', 'ActiveMQ', 'Apache ActiveMQ Artemis', 'LavinMQ', 'OpenAMQ', 'pamqp',
+            'pika', 'aiorabbit', 'rabbitpy', 'unknown', '']
+VERSIONS = ['%d.%d.%d' % (a, b, c) for a in (0, 1, 2, 3, 4, 5, 10) for b in (0, 1, 5, 6, 7, 8, 9, 12, 13) for c in (0, 1, 7, 9, 15)] + \
+    ['3.5', '3.6', '3', '4', '0-9-1', '0.9.1', '3.6.0-rc1', '3.5.7+1', 'v3.5.7', '3.5.7.1', 'x.y.z', '', ' 3.5.7', '3.05.7', '2.6.1', '3.8.9', '3.12.1']
+
+
+def realistic_frame(ctx):
+    """frames as real peers send them: the handshake with broker / client products and versions of every
+    vintage, close frames with the reply codes of the specification, dead-lettered messages. Code that keys
+    behaviour on WHAT a peer says (product, version, capabilities, reply code, header names) is only reached
+    by such contents."""
+    g = ctx.gen
+    r = g.r
+    caps = {'publisher_confirms': r.choice([True, False]), 'exchange_exchange_bindings': True, 'basic.nack': True,
+            'consumer_cancel_notify': r.choice([True, False]), 'connection.blocked': True, 'consumer_priorities': True,
+            'authentication_failure_close': True, 'per_consumer_qos': True, 'direct_reply_to': True}
+    peer = {'product': r.choice(PRODUCTS), 'version': r.choice(VERSIONS), 'platform': r.choice(['Erlang/OTP 26.2.1', 'Erlang/R16B03', 'Python 3.12.1', 'Java']),
+            'copyright': 'Copyright (c) 2007-2024 Broadcom Inc and/or its subsidiaries', 'information': 'Licensed under the MPL 2.0.',
+            'capabilities': caps, 'cluster_name': 'rabbit@host-%d' % r.randrange(100)}
+    if r.random() < 0.3:
+        peer.pop(r.choice(list(peer)))
+    k = r.randrange(10)
+    C = commands
+    if k < 3:
+        f = C.Connection.Start(0, 9, peer, r.choice(['PLAIN AMQPLAIN', 'PLAIN', 'EXTERNAL PLAIN']), r.choice(['en_US', 'en_US en_GB']))
+    elif k == 3:
+        f = C.Connection.StartOk(peer, r.choice(['PLAIN', 'AMQPLAIN', 'EXTERNAL']), '\x00guest\x00guest', 'en_US')
+    elif k == 4:
+        f = C.Connection.Tune(r.choice([0, 1, 2047, 65535]), r.choice([0, 4096, 131072, 2 ** 32 - 1]), r.choice([0, 1, 60, 580, 65535]))
+    elif k == 5:
+        code = r.choice([200, 311, 312, 313, 320, 402, 403, 404, 405, 406, 501, 502, 503, 504, 505, 506, 530, 540, 541])
+        cls = r.choice([C.Connection.Close, C.Channel.Close])
+        f = cls(code, r.choice(['NOT_FOUND - no queue \'q\' in vhost \'/\'', 'CONNECTION_FORCED - broker forced connection closure', 'OK', '']),
+                r.choice([0, 10, 20, 40, 50, 60, 85, 90]), r.choice([0, 10, 11, 20, 40, 50, 51]))
+    elif k == 6:
+        f = C.Connection.Open(r.choice(['/', 'prod', '%2F', 'a' * 127]))
+    elif k == 7:
+        death = {'count': r.choice([1, 2, 40000, 3000000000]), 'reason': r.choice(['expired', 'rejected', 'maxlen']), 'queue': 'q',
+                 'time': datetime.datetime(2024, 1, 1, tzinfo=datetime.timezone.utc), 'exchange': '', 'routing-keys': ['q', 'r'],
+                 'original-expiration': '60000'}
+        f = header.ContentHeader(body_size=r.choice([0, 1, 131072]), properties=C.Basic.Properties(
+            content_type=r.choice(['application/json', 'text/plain', 'image/png', 'a']), delivery_mode=r.choice([1, 2]),
+            headers={'x-death': [death, dict(death)], 'x-first-death-reason': 'expired', 'x-delivery-count': r.choice([1, 40000])},
+            timestamp=datetime.datetime(2024, 1, 1, tzinfo=datetime.timezone.utc), expiration='60000', user_id='guest', app_id='app'))
+    elif k == 8:
+        f = C.Queue.Declare(0, 'q', False, True, False, False, False, {'x-message-ttl': r.choice([60000, 40000, 3000000000]), 'x-max-length': r.choice([1000, 65535, 65536]),
+                                                                        'x-queue-type': r.choice(['classic', 'quorum', 'stream']), 'x-dead-letter-exchange': 'dlx'})
+    else:
+        f = C.Basic.Deliver('ctag-%d' % r.randrange(10), r.choice([1, 2 ** 32, 2 ** 64 - 1]), r.choice([True, False]), r.choice(['', 'amq.topic']), 'rk')
+    return f, (0 if isinstance(f, base.Frame) and f.name.startswith('Connection.') else r.choice([1, 2, 65535]))
+
+
+def random_frame(ctx, kinds='MHBPX', realistic=0.15):
     """(python frame object, channel, sx of frame) - valid frames of all five kinds"""
     g = ctx.gen
+    if realistic and g.r.random() < realistic:
+        return realistic_frame(ctx)
     k = g.r.choice(kinds)
     ch = g.r.choice([0, 1, 255, 256, 32767, 32768, 65535, g.r.randrange(65536)])
     if k == 'M':
